@@ -298,7 +298,7 @@ fn redeclaration(ctx: &Ctx) -> (usize, usize) {
 
 pub fn run(tier: Tier) {
     let ctx = Ctx::new("C12", tier);
-    let depth = tier.pick(2, 3);
+    let depth = tier.pick(2, 4);
     let panel = authorizer_panel();
     let checked = AtomicUsize::new(0);
     let samples_out = Samples::new(6);
@@ -327,7 +327,7 @@ pub fn run(tier: Tier) {
     let st = ehist::bfs(
         initial,
         depth,
-        tier.pick(100_000, 3_000_000),
+        tier.pick(100_000, 30_000_000),
         &next,
         &|h, t| {
             // the authorizer panel on every state up to depth 2, and on every third state beyond
